@@ -1,9 +1,151 @@
+import RsMatterVerif.Model.Acl
 import Driver.Util
-/-! Driver for C05: not built yet. -/
+/-! Driver for C05: replays configuration + query lines on `Model/Acl` (DIS = the model answers
+differently from the real `AccessReq::allow`) and evaluates the declarative specification
+`Acl.grantedB` / `Acl.reachesB` on the same inputs against the implementation's decision (ORA). -/
 namespace Driver.C05
+open Acl
 
-def run : IO UInt32 := do
-  IO.eprintln "C05: driver not built yet"
-  return 2
+structure St where
+  fabrics : List Fabric := []
+
+def modeOf (s : String) : Option (Option AuthMode) :=
+  if s = "p" then some (some .pase) else if s = "c" then some (some .case)
+  else if s = "g" then some (some .group) else if s = "n" then some none else none
+
+def optNum (s : String) : Option (Option Nat) :=
+  if s = "*" ∨ s = "-" then some none else s.toNat?.map some
+
+def natList (s : String) : Option (List Nat) :=
+  if s = "-" then some [] else (s.splitOn ",").mapM (·.toNat?)
+
+def parseTarget (s : String) : Option Target :=
+  match s.splitOn "/" with
+  | [e, c, d] =>
+    match optNum e, optNum c, optNum d with
+    | some e, some c, some d => some { endpoint := e, cluster := c, deviceType := d }
+    | _, _, _ => none
+  | _ => none
+
+/-- `build_entry` of the harness: `AclEntry::new` + `add_subject`* + `add_target`*;
+outer `none` = unparsable, inner `none` = the API refused (capacity). -/
+def buildEntry (pb : Nat) (mode : AuthMode) (subjects targets : String) : Option (Option Entry) := do
+  let e0 : Entry := { privilege := pb, authMode := mode, subjects := none, targets := none, fabIdx := none }
+  let e1 : Option Entry ←
+    if subjects = "null" then pure (some e0)
+    else if subjects = "e" then pure (some { e0 with subjects := some [] })
+    else do
+      let ss ← (subjects.splitOn ",").mapM (·.toNat?)
+      pure (ss.foldl (fun (acc : Option Entry) s => acc.bind (·.addSubject s)) (some e0))
+  match e1 with
+  | none => pure none
+  | some e1 =>
+    if targets = "null" then pure (some e1)
+    else if targets = "e" then pure (some { e1 with targets := some [] })
+    else do
+      let ts ← (targets.splitOn ";").mapM parseTarget
+      pure (ts.foldl (fun (acc : Option Entry) t => acc.bind (·.addTarget t)) (some e1))
+
+def bits (l : List Bool) : String :=
+  if l.isEmpty then "-" else String.ofList (l.map (fun b => if b then '1' else '0'))
+
+def canonicalPriv (b : Nat) : Bool := (privOfBits b).isSome
+
+def step (st : St) (line : String) : St × String :=
+  let (op, out) := splitArrow line
+  match words op with
+  | "case" :: _ => ({}, "case")
+  | ["caps", f, a, s, t, g, e, c] =>
+    let mine := [Consts.maxFabrics, Consts.maxAclEntriesPerFabric, Consts.maxSubjectsPerAclEntry,
+      Consts.maxTargetsPerAclEntry, Consts.maxGroupsPerFabric, Consts.groupEndpointsPerFabric,
+      Consts.maxCatIdsPerNoc]
+    let theirs := [f, a, s, t, g, e, c].map (fun x => x.toNat?.getD 0)
+    if out ≠ "ok" then (st, s!"BAD harness built with other capacities: {out}")
+    else if mine = theirs then (st, "ok") else (st, s!"DIS caps {mine}")
+  | ["fab"] =>
+    match fabricsAdd st.fabrics with
+    | some (fs, i) => if out = toString i then ({ fabrics := fs }, "ok") else ({ fabrics := fs }, s!"DIS {i}")
+    | none => if out = "err" then (st, "ok") else (st, "DIS err")
+  | ["rmfab", i] =>
+    match i.toNat? with
+    | none => (st, "BAD num")
+    | some i =>
+      match (if i = 0 ∨ i > 255 then none else fabricsRemove st.fabrics i) with
+      | some fs => if out = "ok" then ({ fabrics := fs }, "ok") else ({ fabrics := fs }, "DIS ok")
+      | none => if out = "err" then (st, "ok") else (st, "DIS err")
+  | ["acl", fab, pb, mode, subjects, targets] =>
+    match fab.toNat?, pb.toNat?, modeOf mode with
+    | some fab, some pb, some (some mode) =>
+      match buildEntry pb mode subjects targets with
+      | none => (st, "BAD entry")
+      | some none => if out = "err" then (st, "ok") else (st, "DIS err")
+      | some (some e) =>
+        let r : Option (List Fabric × Nat) :=
+          if fab = 0 ∨ fab > 255 then none else fabricsAclAdd st.fabrics fab e
+        match r with
+        | some (fs, i) => if out = toString i then ({ fabrics := fs }, "ok") else ({ fabrics := fs }, s!"DIS {i}")
+        | none => if out = "err" then (st, "ok") else (st, "DIS err")
+    | _, _, _ => (st, "BAD acl")
+  | ["grp", fab, gid, ep] =>
+    match fab.toNat?, gid.toNat?, ep.toNat? with
+    | some fab, some gid, some ep =>
+      let r : Option (List Fabric) :=
+        if fab = 0 ∨ fab > 255 ∨ gid > 65535 ∨ ep > 65535 then none
+        else fabricsGroupAdd st.fabrics fab ep gid
+      match r with
+      | some fs => if out = "ok" then ({ fabrics := fs }, "ok") else ({ fabrics := fs }, "DIS ok")
+      | none => if out = "err" then (st, "ok") else (st, "DIS err")
+    | _, _, _ => (st, "BAD grp")
+  | ["gaux", fab, gid, v] =>
+    match fab.toNat?, gid.toNat? with
+    | some fab, some gid =>
+      let r : Option (List Fabric × Bool) :=
+        if fab = 0 ∨ fab > 255 ∨ gid > 65535 then none else fabricsSetHasAux st.fabrics fab gid (v = "1")
+      match r with
+      | some (fs, ch) =>
+        let m := if ch then "changed" else "same"
+        if out = m then ({ fabrics := fs }, "ok") else ({ fabrics := fs }, s!"DIS {m}")
+      | none => if out = "err" then (st, "ok") else (st, "DIS err")
+    | _, _ => (st, "BAD gaux")
+  | ["q", fab, mode, aux, id, cats, ep, cl, leaf, opb, perms, dts] =>
+    match fab.toNat?, modeOf mode, id.toNat?, natList cats, optNum ep, optNum cl, optNum leaf,
+        opb.toNat?, (if perms = "none" then some none else perms.toNat?.map some), natList dts with
+    | some fab, some mode, some id, some cats, some ep, some cl, some leaf, some opb, some perms, some dts =>
+      let subj := cats.foldl addCatid (subjectsNew id)
+      let acc : Accessor := { fabIdx := fab, auxAclEnabled := aux = "1", subjects := subj, authMode := mode }
+      let req : AccessReq := { accessor := acc, object := {
+        path := { endpoint := ep, cluster := cl, leaf := leaf }, targetPerms := perms,
+        operation := opb, deviceTypes := dts } }
+      let m := allow st.fabrics req
+      let own := if fab = 0 then none else fabricsGet st.fabrics fab
+      let (ma, md) := match own with
+        | none => ("-", "-")
+        | some f => (bits (f.acl.map (fun e => matchAccessor e acc)),
+                     bits (f.acl.map (fun e => matchAccessDesc e req.object acc.auxAclEnabled)))
+      let mout := s!"{if m then "allow" else "deny"} {ma} {md}"
+      let implAllow := out.startsWith "allow"
+      -- oracle: the declarative specification on the same inputs; it speaks about the five
+      -- privileges and the operations read / write only
+      let inScope := (opOfBits opb).isSome &&
+        (match own with | none => true | some f => f.acl.all (fun e => canonicalPriv e.privilege))
+      if out = "panic" then (st, "ORA panic in allow()")
+      else if inScope && grantedB st.fabrics req != implAllow then
+        (st, s!"ORA spec={if grantedB st.fabrics req then "allow" else "deny"} impl={out}")
+      else if mout = out then (st, "ok") else (st, s!"DIS {mout}")
+    | _, _, _, _, _, _, _, _, _, _ => (st, "BAD q")
+  | ["ep", fab, mode, id, endpoint] =>
+    match fab.toNat?, modeOf mode, id.toNat?, endpoint.toNat? with
+    | some fab, some mode, some id, some endpoint =>
+      let acc : Accessor := { fabIdx := fab, auxAclEnabled := false, subjects := subjectsNew id, authMode := mode }
+      let m := isEndpointAccessible st.fabrics acc endpoint
+      let impl := out = "yes"
+      if out = "panic" then (st, "ORA panic in is_endpoint_accessible()")
+      else if reachesB st.fabrics acc endpoint != impl then
+        (st, s!"ORA spec={if reachesB st.fabrics acc endpoint then "yes" else "no"} impl={out}")
+      else if m = impl then (st, "ok") else (st, s!"DIS {if m then "yes" else "no"}")
+    | _, _, _, _ => (st, "BAD ep")
+  | _ => (st, "BAD op")
+
+def run : IO UInt32 := Driver.runLoop ({} : St) step
 
 end Driver.C05
